@@ -43,7 +43,7 @@ BUDGET = {
     'quick': dict(runs=24000, wall=45),
     'thorough': dict(runs=600000, wall=540),
 }
-RUNS_SCALE = {}   # per-property multipliers, filled by focus modules
+RUNS_SCALE = {'C02': 0.35}   # per-property multipliers (heavier oracles run fewer histories)
 
 
 def run_seeds(vseed, focus, n):
